@@ -30,6 +30,15 @@ CHECKS = {
             "strong-RSA-breaking adversaries and alterations of three or more independent fields are out of reach of enumeration",
         ],
     },
+    "C19": {
+        "level": "model_checking",
+        "units": [
+            unit("c19-common", "internal/common", ["zz_verif_c19_test.go"], "^TestVerifC19", shards={"quick": 8, "thorough": 16}),
+            unit("c19-safeprime", "safeprime", ["zz_verif_c19_test.go"], "^TestVerifC19", shards={"quick": 3, "thorough": 8}),
+            unit("c19-zkproof", "zkproof", ["zz_verif_c19_test.go"], "^TestVerifC19", shards={"quick": 2, "thorough": 8}),
+        ],
+        "assumptions": ["math/big arithmetic and trial division are the reference", "large operands are covered by structured families only (2^k, 2^k+-c, convenient-prime moduli)"],
+    },
     "_FIX": {
         "level": "other",
         "units": [unit("genfix", "root", [], "^TestVerifGenFixtures$", env={"VERIF_GENFIX": "1"}, timeout=1800)],
